@@ -534,7 +534,8 @@ def _dirs(rels):
 def _real_realpath(path):
     """realpath using the original (unwrapped) os functions."""
     seen = 0
-    path = posixpath.abspath(path)
+    if not path.startswith('/'):
+        path = posixpath.join(os.getcwd(), path)        # no lexical normalisation: 'link/..' is resolved through the link
     parts = [c for c in path.split('/') if c]
     cur = '/'
     i = 0
